@@ -6,6 +6,10 @@ ids=[p['id'] for p in props]
 TECH="contract-based deductive verification: own VC generator (gvc) over the typed Go AST of /repo, contracts in verif-tagged comment files, obligations discharged by z3 5.1.0 / z3 4.8.12 / cvc5 1.0"
 claims={
  'C01': dict(cat='proof', text="From-Markdown text output: the grower (assembleBranch, assemble, grow), the text spreader (spreadBranch, spread), stack.dfs and the node predicates are proved against executable spec functions (specBranch, specRender) for every heap satisfying the forest invariant and every four-tuple of branch strings; lemmas raw=render by induction. Parser and generator loops are being brought under contract (see level_note).", note="iterator (iter.Pull2) path and the Markdown parser are not yet under contract: the claim covers the functions listed in the evidence file; writers are assumed to accept bytes (C14 is about failures)", ref='§8 C01'),
+ 'C02': dict(cat='proof', text="markdown.Parser.Parse and separateRow are proved against a declarative, executable row specification (specItemShape / specItemText / specDepth): a row is accepted iff a bullet follows a uniform indentation that agrees with the block's indent byte and is a whole multiple of the learnt unit, empty text gives the empty-text error, blank rows are skipped; handleErr maps format errors to an error carrying the offending row; generate returns errNilStack for an item before the first root; stack.dfs reports (and the generators turn into a format error with the row) an item nested more than one level deeper — the silent drop this obligation found was repaired (fix: commit); dfs never detaches a node (mono).", note="bufio.Scanner line splitting and strings.* are trusted contracts; 'every non-blank line is represented' is the conjunction of dfs/post#attached, dfs/post#mono and generate's invariants (the induction over lines is a meta-argument); massive mode and wasm generator not covered here", ref='§8 C02'),
+ 'C12': dict(cat='proof', text="Simple mode: every dereference, index, slice, type assertion, division and unsigned conversion in the functions reachable from the From-Markdown and From-Root text/walk entry points is a discharged safety obligation (under the forest invariant and the contracts of callers); the iterator route (generateIter, growIter, spreadIter closures over iter.Pull2) is verified with stream protocols (a yielded root is non-nil unless an error is yielded) — the nil root this found on empty input was repaired (fix: commit); loops and recursions with a decreases clause are proved terminating (trees: structural descent); blank-only input builds no node.", note="massive mode (goroutines) not covered: 'never hangs' there is C11; termination of tree recursions relies on a finite acyclic heap; bufio.Scanner delivers finitely many lines (trusted); mkdir/verify entry points not yet in the cone", ref='§8 C12'),
+ 'C14': dict(cat='proof', text="Writer: every printing function of the simple mode (spreadBranch, spread, assembleAndPrint, growAndSpread, treeSimple.output / outputProgrammably, the spreadIter closure through the stream finish condition) has the clause 'result == nil ==> no write was refused' over the trusted writer model — the four places that swallowed the error were repaired (fix: commit). Reader: generate returns the scanner's error whenever the scan failed.", note="fmt.Fprint and bufio.Scanner are trusted models (a write either appends all bytes or reports an error); JSON/YAML/TOML encoders, dry-run spread and the massive mode are not in this claim; reader-error forwarding through the iterator route is not stated", ref='§8 C14'),
+ 'C15': dict(cat='proof', text="Parse's postcondition is stated over the abstract content of a row: hierarchy == depth + 1 (+1 under # roots) with depth = indent / unit, text == the bytes after the bullet minus one separating space; neither depends on the indent byte, the unit or the bullet symbol; blank rows leave the parser state untouched and are skipped by the generator; heading rows give hierarchy 1 and the trimmed name. The three-symbol loop of separateRow is proved insensitive to bullet symbols inside the text (loop invariant 'tried').", note="CRLF / final newline rest on the trusted bufio.Scanner contract; equality of outputs across spellings follows from C01/C02 being functions of the (hierarchy, text) sequence (meta-argument); a lemma over an explicit mkRow constructor is not yet stated", ref='§8 C15'),
  'C03': dict(cat='proof', text="NewRoot/Add/validateTreeRoot and the From-Root text and walk entries (with their deprecated aliases, verified against the same shared contract) are proved: Add dedupes or appends one level deeper preserving the forest invariant; rejected roots return the sentinel errors before any effect; OutputFromRoot writes specRender of the root for the configuration's branch strings.", note="newConfig (applies caller-supplied option closures) is an assumed contract; massive mode implementations are assumed/not covered; JSON/YAML/TOML, mkdir and verify From-Root routes are not yet claimed", ref='§8 C03'),
  'C05': dict(cat='proof', text="walkNode/walk are proved to call the callback exactly on specPreorder (the order of the text lines) and never again after it returned an error (protocol precondition at every call site), returning that error unchanged; WalkerNode accessors are proved against the node's fields; WalkFromRoot establishes grown() before the first callback and keeps it (empty frame on node fields).", note="iterator forms (WalkIterFromRoot, iter.Pull2) not yet under contract; prefix property of the trace on failure not stated; Path only for the stored value", ref='§8 C05'),
  'C13': dict(cat='proof', text="Every public operation under contract preserves the forest invariant and its result is stated through spec functions that read only names, hierarchy, parent and children (never Node.index, idxCounter or the cached branch): results are functions of shape and names for all sequential histories, by induction on history length. The index-collision defect found by this obligation was repaired (fix: commit).", note="sequential histories only; concurrent use is not modelled", ref='§8 C13'),
